@@ -670,3 +670,45 @@ func Hash64(s string) uint64 {
 	h.Write([]byte(s))
 	return h.Sum64()
 }
+
+// ---- low-level reporting for harness-specific explorers (vsched) ---------------------
+
+// Report records a confirmed violation found by an explorer that manages its
+// own cases (the caller is responsible for the confirmation re-runs).
+func (c *Ctx) Report(part, sig, what string, cs any, reruns int) {
+	c.record(part, fail{sig, what}, cs, reruns, true)
+}
+
+// ReportUnreproduced records a failure that did not reproduce.
+func (c *Ctx) ReportUnreproduced(part, sig, what string, cs any) {
+	c.record(part, fail{sig, what}, cs, 1, false)
+}
+
+// ReplayCase decodes the recorded case into v when the run replays this part.
+func (c *Ctx) ReplayCase(part string, v any) bool {
+	if c.replay == nil || c.replay.Part != part {
+		return false
+	}
+	if err := json.Unmarshal(c.replay.Case, v); err != nil {
+		c.T.Fatalf("replay case does not decode: %v", err)
+	}
+	return true
+}
+
+// AddEvals adds to the evaluation counters of a part.
+func (c *Ctx) AddEvals(part string, n, nontrivial int64) {
+	c.mu.Lock()
+	c.res.Evaluations += n
+	c.res.Nontrivial += nontrivial
+	c.res.Parts[part] += n
+	c.mu.Unlock()
+}
+
+// Outcome records one of a small set of distinct observed outcomes.
+func (c *Ctx) Outcome(k string) {
+	c.mu.Lock()
+	if len(c.outcomes) < 65536 {
+		c.outcomes[k] = struct{}{}
+	}
+	c.mu.Unlock()
+}
